@@ -149,11 +149,18 @@ def run_case(case):
                 label, reply = next(reply_iter)
             except StopIteration:
                 break
+        reply_ml = (16384, 0, 7, 2 ** 32 - 1)[nrep % 4]
         if reply is None:
             # probe request with a reply that rejects everything (we only look at the RQ)
             rq.dul.inbox.append(assoc.decode_pdu(assoc.ac_tree([], max_len=16384)))
         else:
-            rq.dul.inbox.append(assoc.decode_pdu(assoc.ac_tree(reply, max_len=16384)))
+            rq.dul.inbox.append(assoc.decode_pdu(assoc.ac_tree(reply, max_len=reply_ml)))
+            if label and label.endswith('extra') and nrep % 2:
+                # while the reply is pending the entity is re-configured: the new class gets the very id the reply names
+                def late_config(dul, item, _ae=ae):
+                    dul.on_send = None
+                    _ae.add_scu(assoc.Recorder('late', [cls(397)]))
+                rq.dul.on_send = late_config
         nrep += 1
         try:
             rq.request()
@@ -217,6 +224,21 @@ def run_case(case):
             proposed = list(zip(ids, sops))
             if bad_ids or len(set(ids)) != len(ids):
                 break
+            # narrowing this association's own (documented) context table must not change what the entity proposes next time
+            if len(rq.context_def_list) > 1:
+                rq.context_def_list.pop(sorted(rq.context_def_list)[0])
+                with stubs.patched_dul():
+                    rq2 = asceprovider.AssociationRequester(ae, ae.max_pdu_length, remote)
+                rq2.dul.inbox.append(assoc.decode_pdu(assoc.ac_tree([], max_len=16384)))
+                try:
+                    rq2.request()
+                    sops2 = [str(i.abs_sub_item.name) for p2 in rq2.dul.sent if getattr(p2, 'pdu_type', None) == 1
+                             for i in p2.variable_items if type(i).__name__ == 'PresentationContextItemRQ']
+                    if sorted(sops2) != sorted(configured):
+                        viol.append(('c11:proposal-depends-on-earlier-association', 'after another association narrowed its own context table the entity '
+                                     'proposes %d contexts for %d configured classes (%s)' % (len(sops2), len(configured), where)))
+                except Exception as exc:
+                    viol.append(('c11:request-raises:%s:second' % type(exc).__name__, 'second request() raised %r (%s)' % (exc, where)))
             reply_iter = _replies(proposed, tslist or ['1.2.840.10008.1.2'])
             continue
         # ---- reply checks
@@ -227,6 +249,10 @@ def run_case(case):
                 exp[pid] = (prop[pid], ts)
         got = {k: (str(v.sop_class), str(v.supported_ts)) for k, v in rq.accepted_contexts.items()}
         rwhere = 'reply=%s %r (%s)' % (label, reply[:4], where)
+        # the entity may have been re-configured while the reply was pending: restore for the next round
+        for extra_id in [k for k, v in list(ae.context_def_list.items()) if str(v.sop_class) == cls(397)]:
+            ae.context_def_list.pop(extra_id, None)
+            ae.supported_scu.pop(cls(397), None)
         if got != exp:
             viol.append(('c11:accepted-contexts', 'accepted_contexts=%r, peer accepted %r among the proposed (%s)' % (got, exp, rwhere)))
         if {k: (str(v.sop_class), str(v.supported_ts)) for k, v in rq.dul.accepted_contexts.items()} != exp:
